@@ -9,7 +9,7 @@ from props.tapecommon import CaseDir, model_outcome, run_tool, status_class
 
 GEN_FILES = ["GenDisk", "GenTape"]
 RULE = ("valid archives (independent writers of C07/C08) mutated: random flips in table / catalogue / leader bytes; allocation-table self-links, 2- and n-cycles, links to "
-        "free or reserved blocks, random tables; first-block bytes 160..255; last-sector counts up to 65535; names holding '/', '..', a leading '/', NUL, bytes >= 80; truncations; "
+        "free or reserved blocks, random tables; first-block bytes 160..255; last-sector counts up to 65535; names holding '/', '..', a leading '/', NUL, bytes >= 80, and UTF-8 sequences of characters that fold to '.' or '/' (two dot leader, fullwidth solidus...), percent and backslash spellings; truncations; "
         "wholly random catalogues; tapes with garbage type bytes, truncated blocks, thousands of markers; both disk flavours and tapes. Oracle on the real tool only: list and "
         "extract return (report or error) within the time limit and without MemoryError under a 3 GiB address-space limit; every file or directory extract creates or opens for "
         "writing resolves inside the destination (its sideN sub-directories for disks); nothing outside the destination changes. The extracted model is compared too (exit class, effects, "
@@ -23,6 +23,17 @@ TIME_LIMIT = 20
 EVIL_NAMES = ["../d", "../side0", "../side1", "../../PW", "..", ".", "a/b", "/ABS", "x\x00y", "..\\..", "....//", "A/../B", "\x00", "/", "//", "é", "\xff\xfe", " / ", "CON", "a\nb"]
 EVIL_PAIR_NAMES = [".", "", "..", "A/..", "/", "../..", "..//", "X/", "../d", "../side0", "../side3", "d/../..", "./../d", "../../PW", "../x", "/tmp/zz1", "a/../../y"]
 EVIL_PAIR_EXTS = ["/AB", "./A", "/..", "/", "..", ".", "/.", "A/B", "//A", "", "X", "BIN"]
+
+
+def _u(s):
+    """the UTF-8 bytes of s, written as the str whose latin-1 bytes they are (names are stored through .encode('latin1'))"""
+    return s.encode("utf-8").decode("latin1")
+
+
+# bytes that hold no '/' and no '.', but become one under a normalisation a reader might apply to names (compatibility folding, percent or backslash
+# conventions): U+2025 two dot leader, U+FF0F fullwidth solidus, U+FF0E fullwidth full stop, U+2215 division slash, U+2044 fraction slash
+EVIL_PAIR_NAMES += [_u("\u2025\uff0fAB"), _u("\uff0fABCDE"), _u("\u2025\uff0fA"), _u("\uff0e\uff0e/A"), _u("..\u2215A"), _u("\u2025/A"), "..\\x", "..%2fA", "%2e%2e/A"]
+EVIL_PAIR_EXTS += [_u("\uff0f"), _u("\u2215")]
 
 
 def mutate_disk(rng, is_fd, raw, muts):
